@@ -45,6 +45,7 @@ ATTRS_MULTI = ['H', 'S', 'C', 'h', 'V', 'kappa', 'Cn', 'mu', 'sigma', 'epsilon',
 NAMES = ['H', 'S', 'Cn', 'V', 'mu', 'kappa', 'sigma', 'epsilon', 'Hvap']
 _REC = None          # active recorder
 _ILL = []            # reads skipped because package and indexer are out of step
+_EXEC = []           # operations of the last history that really ran
 _TRUNC = []          # where the last history was cut short (an operation the library rejected)
 _COUNT = [0]
 
@@ -166,7 +167,7 @@ class Recorder:
             self.lines.append((f'readempty {oid}', 'none'))
         else:
             kid = w.keys.setdefault(k, len(w.keys))
-            self.lines.append((f'read {oid} {name} {kid}', ('miss' if miss else 'hit') + f' p{pkg_id(obj.thermo)}'))
+            self.lines.append((f'read {oid} {name} {kid}', ('miss' if miss else 'hit') + f' p{pkg_id(obj.thermo)} d{w.dict_no(obj._property_cache)}'))
 
 
 def _failed(self, obj, k):
@@ -187,6 +188,14 @@ class World:
         self.last_mut = ['-']
         self.proxied = set()    # object ids that have a proxy
         self.snaps = {}         # object id -> StreamData from get_data()
+        self.dicts = []         # memo dict objects in order of first appearance on a read line (kept alive: ids stay unique)
+        self.executed = []      # operations that really ran (a generated op may be skipped or cut off)
+
+    def dict_no(self, d):
+        for i, x in enumerate(self.dicts):
+            if x is d: return i
+        self.dicts.append(d)
+        return len(self.dicts) - 1
 
     def oid(self, obj):
         for i, o in enumerate(self.objs):
@@ -224,6 +233,7 @@ def run_ops(ops):
     model_in, outs, failures = [], [], []
     hits = changes = 0
     trunc = _TRUNC; trunc.clear()
+    _EXEC.clear(); w.executed = _EXEC
     illformed = _ILL; illformed.clear()
     def emit(line, ans):
         model_in.append(line); outs.append(ans)
@@ -276,6 +286,7 @@ def run_ops(ops):
                 for ml, ans in rec.lines:
                     emit(ml, ans)
                     if ans.startswith('hit'): hits += 1
+                w.executed.append('read')
                 if s.thermo.chemicals is not s.imol.chemicals:
                     # the stream's package and its flow indexer are out of step: a proxy (or flow-linked stream) whose
                     # partner changed package re-keyed the shared indexer (DESIGN §12.7, C12-8).  "A fresh stream with
@@ -298,7 +309,10 @@ def run_ops(ops):
                 if isinstance(s, tmo.MultiStream) and len(s.phases) != s.imol.data.shape[0]:
                     continue          # phase labels and flow rows out of step (data shared with a stream of other
                                       # phases): "the same flows and phases" is undefined; C13's concern, not C14's
-                ref = getattr(fresh_like(s), attr)
+                try:
+                    ref = getattr(fresh_like(s), attr)
+                except Exception:
+                    continue          # the reference stream cannot be built / read in this state: nothing to compare
                 if not same(val, ref):
                     kind = 'proxy-pair' if (w.kind[o] == 'proxy' or o in w.proxied) else w.kind[o]
                     sig = f'stale:{kind}:after-{w.last_mut[0]}'
@@ -397,7 +411,19 @@ def run_ops(ops):
                 elif op == 'copylike': s.copy_like(w.objs[int(t[2])])
                 elif op == 'copyflow': s.copy_flow(w.objs[int(t[2])])
                 elif op == 'copytc': s.copy_thermal_condition(w.objs[int(t[2])])
-                elif op == 'setmass': s.imass[t[2]] = float(t[3])
+                elif op == 'setmass':
+                    if isinstance(s, tmo.MultiStream): s.imass[s.phases[int(t[4]) % len(s.phases)], t[2]] = float(t[3])
+                    else: s.imass[t[2]] = float(t[3])
+                elif op == 'setprop':
+                    # the other public setters of the thermal / total state
+                    what, x = t[2], float(t[3])
+                    if what == 'h':
+                        ref = fresh_like(s); ref.T = s.T + x; s.h = ref.h
+                    elif what == 'Hnet':
+                        ref = fresh_like(s); ref.T = s.T + x; s.Hnet = ref.Hnet
+                    elif what == 'F_mol': s.F_mol = s.F_mol * x if s.F_mol else x
+                    elif what == 'F_mass': s.F_mass = s.F_mass * x if s.F_mass else x
+                    elif what == 'F_vol': s.F_vol = s.F_vol * x
                 elif op == 'settotal': s.set_total_flow(float(t[2]), t[3])
                 elif op == 'splitto':
                     a, b = w.objs[int(t[2])], w.objs[int(t[3])]
@@ -405,7 +431,15 @@ def run_ops(ops):
                             or isinstance(s, tmo.MultiStream) != isinstance(b, tmo.MultiStream):
                         _REC = None
                         continue
+                    # MultiStream.split_to gives the outlets the feed's phases first: the phases setter of an outlet
+                    # whose phase set differs runs reset_cache() (mirrored here as the mutator table says)
+                    pre_ph = [tuple(x.phases) for x in (a, b)] if isinstance(s, tmo.MultiStream) else None
                     s.split_to(a, b, float(t[4]), energy_balance=False)
+                    if pre_ph is not None:
+                        for x, ph0 in zip((a, b), pre_ph):
+                            if ph0 != tuple(s.phases):
+                                rec.lines.append((f'mut {w.oid(x)} resets', 'ok'))
+                                for k in [k for k in w.views if k[0] == id(x)]: pass
                 elif op == 'vle':
                     if not (isinstance(s, tmo.MultiStream) and 'l' in s.phases and 'g' in s.phases and set(s.phases) <= set('lg')):
                         _REC = None
@@ -447,6 +481,7 @@ def run_ops(ops):
                 _REC = None
                 for ml, ans in rec.lines: emit(ml, ans)
                 w.last_mut[0] = op; changes += 1
+                w.executed.append(op)
                 emit(f'mut {o} {mk}', 'ok')
         except (RuntimeError, ValueError, AttributeError, IndexError, KeyError, TypeError, tmo.exceptions.UndefinedPhase,
                 tmo.exceptions.UndefinedChemicalAlias) as e:
@@ -463,7 +498,9 @@ def run_ops(ops):
 
 def run_impl(case: Case) -> ImplResult:
     model_in, outs, failures, hits, changes = run_ops(case.ops)
-    tags = sorted({l.split(' ')[0] for l in case.ops}) + sorted({'ans:' + o.split(' ')[0] for o in outs}) + list(_TRUNC)
+    # tags count operations that really RAN in this case (a generated op may be skipped as inapplicable or cut off)
+    created = {l.split(' ')[0] for l in case.ops if l.split(' ')[0] in ('new', 'copy', 'copythermo', 'flowproxy', 'proxy', 'view')}
+    tags = sorted(set(_EXEC) | created) + sorted({'ans:' + o.split(' ')[0] for o in outs}) + list(_TRUNC)
     tags.append('history:complete' if not _TRUNC else 'history:cut')
     if _ILL: tags.append('skip:package-and-indexer-out-of-step')
     return ImplResult(model_in=model_in, outs=outs, failures=failures, tags=tags,
@@ -493,7 +530,7 @@ def gen_case(rng, length):
         ph = rng.choice(['l', 'g']) if kind == 'single' else rng.choice(['lg', 'lg', 'lLg', 'ls'])
         fl = gen_flows(rng, 10)
         if all(x in ('0',) for x in fl.split(',')): fl = '1,' + fl[2:]
-        ops.append(f'new {kind} 0 {rng.choice(TS)} {rng.choice(PS)} {ph} {fl}')
+        ops.append(f'new {kind} {rng.choice([0, 0, 0, 0, 2, 3])} {rng.choice(TS)} {rng.choice(PS)} {ph} {fl}')
         kinds.append(kind)
     new()
     if rng.random() < 0.6: new()
@@ -552,7 +589,8 @@ def gen_case(rng, length):
         elif r < 0.70: ops.append(f'setflowkey {o} {rng.choice(["Water", "Ethanol", "Methanol"])} {rng.choice([0, 1.5, 6])} {rng.randrange(3)}')
         elif r < 0.71:
             k = rng.random()
-            if k < 0.3: ops.append(f'setmass {o} {rng.choice(["Water", "Ethanol"])} {rng.choice([0, 18.0, 92.5])}')
+            if k < 0.15: ops.append(f'setmass {o} {rng.choice(["Water", "Ethanol"])} {rng.choice([0, 18.0, 92.5])} {rng.randrange(3)}')
+            elif k < 0.3: ops.append(f'setprop {o} ' + rng.choice(['h 15.0', 'h -12.5', 'Hnet 20.0', 'F_mol 2', 'F_mol 0.5', 'F_mass 3', 'F_vol 2']))
             elif k < 0.6: ops.append(f'settotal {o} {rng.choice([1.0, 12.5, 300.0])} {rng.choice(["kmol/hr", "kg/hr"])}')
             else: ops.append(f'vle {o} {rng.choice([350.0, 360.0, 370.5])} {rng.choice(PS)}')
         elif r < 0.75: ops.append(f'scale {o} {rng.choice([2, 0.5, 3, 1])}')
@@ -564,7 +602,19 @@ def gen_case(rng, length):
             elif k < 0.65: ops.append(f'copylike {o} {a}')
             elif k < 0.78: ops.append(f'copyflow {o} {a}')
             elif k < 0.9: ops.append(f'copytc {o} {a}')
-            else: ops.append(f'splitto {o} {a} {b} {rng.choice([0.25, 0.5, 0.8])}')
+            else:
+                # split_to needs two outlets of the feed's class, distinct from it and from each other
+                cands = [i for i in range(len(kinds)) if i != o and kinds[i] == kinds[o]]
+                while len(cands) < 2 and len(kinds) < 7:
+                    ops.append(f'copy {o}'); kinds.append(kinds[o]); cands.append(len(kinds) - 1)
+                if len(cands) >= 2:
+                    a, b = rng.sample(cands, 2)
+                    at = rng.choice(ATTRS_MULTI if kinds[o] == 'multi' else ATTRS_SINGLE)
+                    ops.append(f'read {o} {at}')
+                    ops.append(f'splitto {o} {a} {b} {rng.choice([0.25, 0.5, 0.8])}')
+                    # the sharing probe on feed and outlets
+                    ops.append(f'read {a} {at}'); ops.append(f'setT {a} {rng.choice(TS)}'); ops.append(f'read {a} {at}')
+                    ops.append(f'read {o} {at}'); ops.append(f'read {b} {at}')
             if k >= 0.45 and last_read and rng.random() < 0.6:
                 ops.append(f'read {o} {last_read[1]}')
             if 0.45 <= k < 0.9 and rng.random() < 0.5:
